@@ -5,9 +5,11 @@ from __future__ import annotations
 import ast
 
 from ..cfg import CFG
+from ..astutil import inside
 from ..core import AnalysisError, const_value
+from ..events import container_events, root_name
 from ..defuse import DefUse, Terms, show, walk_term
-from ..tutil import lin
+from ..tutil import lin, no_uids, simp
 
 EXPLANATION = (
     "Static analysis of parsers.pepxml._parse_pepxml / _parse_msms_run / "
@@ -56,70 +58,167 @@ def _psm(ctx, f):
     if len(cp) != 1:
         return
     d = ast.unparse(cp[0].targets[0])
-    stores = {}
-    for n in ast.walk(f.node):
-        if isinstance(n, ast.Assign) and isinstance(
-                n.targets[0], ast.Subscript) and ast.unparse(
-                    n.targets[0].value) == d:
-            k = const_value(n.targets[0].slice)
-            stores.setdefault(k, []).append(n)
+    evs = container_events(f.node, T, cfg)
+    PRE = ("param", p_prefix)
+
+    def accession(src, attr="protein"):
+        return ("sub", ("mcall", ("mcall", src, "get",
+                                  (("const", attr),), ()), "split",
+                        (("const", " "),), ()), ("const", 0))
+
+    PRIMARY = accession(("param", p_info))
+
+    def not_decoy(x):
+        return ("un", "not", ("mcall", x, "startswith", (PRE,), ()))
+
+    COPY = ("mcall", ("param", p_spec), "copy", (), ())
+
+    def is_d(t):
+        while t[0] in ("store", "mut", "mutsub"):
+            t = t[1]
+        return (t[0] == "var" and t[1] == d) or t == COPY
+
+    def dstores(key):
+        return [e for e in evs if e.kind == "store" and is_d(e.recv)
+                and e.key == ("const", key)]
+
+    def loop_conds(e):
+        lp = cfg.enclosing(e.stmt, (ast.For, ast.While))
+        out = []
+        if lp is None:
+            return out
+        for t, o in cfg.necessary_conditions(e.stmt):
+            if inside(t, lp):
+                tt = simp(T.of(t))
+                while tt[0] == "un" and tt[1] == "not":
+                    tt, o = tt[2], not o
+                out.append((no_uids(tt), o))
+        return out
+
     # (a) label
-    lab = stores.get("label", [])
+    lab = dstores("label")
     ctx.require(len(lab) >= 2, f"{f.qual}: label assignments not found")
-    first = min(lab, key=lambda n: n.lineno)
-    ok_first = ast.unparse(first.value) == \
-        f"not {d}['proteins'][0].startswith({p_prefix})" and not cfg.guards(
-            first)
+    firsts = [e for e in lab if cfg.enclosing(e.stmt, (ast.For, ast.While))
+              is None]
+    ok_first = len(firsts) == 1 and simp(firsts[0].value) == not_decoy(
+        PRIMARY) and not cfg.necessary_conditions(firsts[0].stmt)
     ctx.check(ok_first, "C20a-primary-label", f,
               "label starts as 'primary protein is not a decoy'",
-              ast.unparse(first)[:100], node=first)
-    prim = stores.get("proteins", [])
-    okp = bool(prim) and ast.unparse(min(
-        prim, key=lambda n: n.lineno).value) == \
-        f"[{p_info}.get('protein').split(' ')[0]]"
-    ctx.check(okp, "C20a-primary-protein", f,
+              f"{[show(simp(e.value), 100) for e in firsts]}",
+              node=firsts[0].node if firsts else f.node)
+    prim = [e for e in dstores("proteins")
+            if cfg.enclosing(e.stmt, (ast.For, ast.While)) is None]
+    first_list = [e for e in prim if simp(e.value) == ("list", (PRIMARY,))]
+    ctx.check(len(first_list) == 1, "C20a-primary-protein", f,
               "the protein list starts with the hit's primary accession",
-              f"{[ast.unparse(p.value)[:60] for p in prim]}", node=f.node)
+              f"{[show(simp(e.value), 80) for e in prim]}", node=f.node)
+    # where are the accessions collected, and is that what is joined?
+    joined = [e for e in prim if e.value[0] == "mcall" and e.value[1] == (
+        "const", "\t") and e.value[2] == "join" and len(e.value[3]) == 1]
+    apps = [e for e in evs if e.kind == "append" and len(e.args) == 1
+            and cfg.enclosing(e.stmt, (ast.For, ast.While)) is not None]
+
+    def container_id(t):
+        """'var:<name>' or 'slot:proteins' for the list of accessions"""
+        t = no_uids(simp(t))
+        while t[0] in ("mut", "mutsub", "store"):
+            t = t[1]
+        if t[0] == "var":
+            return "var:" + t[1]
+        if t[0] == "sub" and t[2] == ("const", "proteins") and \
+                is_d(t[1]):
+            return "slot:proteins"
+        return None
+
     for upd in lab:
-        if upd is first:
+        if upd in firsts:
             continue
-        gs = cfg.guards(upd)
-        in_alt = any("alternative_protein" in ast.unparse(g[0]) and g[1]
-                     for g in gs)
-        guarded = any(ast.unparse(g[0]) == f"not {d}['label']" and g[1]
-                      for g in gs)
-        v = upd.value
-        last = f"not {d}['proteins'][-1].startswith({p_prefix})"
-        form_ok = ast.unparse(v) == last and guarded or (
-            isinstance(v, ast.BoolOp) and isinstance(v.op, ast.Or)
-            and {ast.unparse(x) for x in v.values} == {f"{d}['label']",
-                                                       last})
+        cs = loop_conds(upd)
+        tag_conds = [(t, o) for t, o in cs if t[0] == "cmp"
+                     and t[1] in ("in", "not in")
+                     and t[2] == ("const", "alternative_protein")]
+        in_alt = any((t[1] == "in") == o for t, o in tag_conds)
+        ELEM = None
+        for t, o in tag_conds:
+            if t[3][0] == "attr" and t[3][2] == "tag":
+                ELEM = t[3][1]
+        ALT = accession(ELEM) if ELEM is not None else None
+        LABEL_NOW = [t for t, o in cs if t[0] == "sub" and t[2] == (
+            "const", "label") and is_d(t[1]) and o is False]
+        v = no_uids(simp(upd.value))
+        form_ok = False
+        if ALT is not None:
+            nd = no_uids(not_decoy(ALT))
+            if v == nd and LABEL_NOW:
+                form_ok = True
+            elif v[0] == "bool" and v[1] == "or" and len(v[2]) == 2 and \
+                    nd in v[2] and any(
+                        x[0] == "sub" and x[2] == ("const", "label")
+                        and is_d(x[1]) for x in v[2]):
+                form_ok = True
         ctx.check(in_alt and form_ok, "C20a-or-accumulator", f,
                   "an alternative protein can only turn a decoy label into "
                   "a target label (label := label or not decoy(alt))",
-                  f"update '{ast.unparse(upd)[:90]}' under "
-                  f"{[ast.unparse(g[0])[:40] for g in gs]}: a PSM with a "
+                  f"update to {show(v, 100)} under "
+                  f"{[(show(t, 50), o) for t, o in cs]}: a PSM with a "
                   "target primary protein and a decoy alternative (or the "
-                  "reverse) is mislabelled", node=upd)
-        # the appended protein precedes the update in the same branch
-        apps = [n for n in ast.walk(f.node) if isinstance(n, ast.Call)
-                and ast.unparse(n.func) == f"{d}['proteins'].append"]
-        ok_app = len(apps) == 1 and ast.unparse(apps[0].args[0]) == \
-            "element.get('protein').split(' ')[0]" and \
-            cfg.every_path_passes(cfg.entry.id, cfg.node_of(upd).id,
-                                  {cfg.node_of(apps[0]).id})
+                  "reverse) is mislabelled", node=upd.node)
+        mine = [e for e in apps if ALT is not None
+                and no_uids(simp(e.args[0])) == no_uids(ALT)]
+        ok_app = len(mine) == 1 and len(joined) == 1 and \
+            container_id(mine[0].recv) is not None and \
+            container_id(mine[0].recv) == container_id(
+                joined[0].value[3][0]) and \
+            [c for c in loop_conds(mine[0])] == [
+                c for c in cs if c not in [(t, False) for t in LABEL_NOW]] \
+            and cfg.every_path_passes(
+                cfg.entry.id, cfg.node_of(upd.stmt).id,
+                {cfg.node_of(mine[0].stmt).id})
         ctx.check(ok_app, "C20a-alternative-collected", f,
-                  "every alternative accession is appended before it is "
-                  "judged", f"{[ast.unparse(a)[:60] for a in apps]}",
-                  node=upd)
+                  "every alternative accession is appended (to the list "
+                  "that is joined into the result) before it is judged",
+                  f"appends: {[show(simp(e.args[0]), 80) for e in apps]}",
+                  node=upd.node)
     # (b) modification insertion
+    Tn = Terms(du)
     mloops = [n for n in ast.walk(f.node) if isinstance(n, ast.For)
-              and "mod_aminoacid_mass" in ast.unparse(n.iter)]
+              and any(x == ("const", "{*}mod_aminoacid_mass")
+                      for x in walk_term(Tn.of(n.iter)))]
     ctx.require(len(mloops) == 1, f"{f.qual}: modification loop not found")
     ml = mloops[0]
     body = {ast.unparse(s.targets[0]): s for s in ml.body
             if isinstance(s, ast.Assign)}
     augs = [s for s in ml.body if isinstance(s, ast.AugAssign)]
+    if not augs:
+        # the other sound idiom: insert from the back, positions taken as
+        # they are - only valid when the modifications are visited in
+        # strictly decreasing NUMERIC position
+        it = Tn.of(ml.iter)
+        ok_back = False
+        why = f"modifications are visited as {show(it, 120)}"
+        if it[0] == "call" and it[1] == "builtins.sorted":
+            kws = dict(it[3])
+            key = kws.get("key")
+            if kws.get("reverse") == ("const", True) and key is not None \
+                    and key[0] == "lambda" and len(key[1]) == 1:
+                pos = ("mcall", ("lparam", key[1][0]), "get",
+                       (("const", "position"),), ())
+                ok_back = key[2] in (
+                    ("call", "builtins.int", (pos,), ()),
+                    ("call", "builtins.float", (pos,), ()))
+                if not ok_back:
+                    why = (f"modifications are sorted by {show(key[2], 60)}"
+                           ": positions are compared as text ('10' < '9'), "
+                           "so with ten or more residues an earlier "
+                           "insertion shifts a later one")
+        ctx.check(ok_back, "C20b-insert-position", f,
+                  "without a running offset the modifications are inserted "
+                  "in decreasing numeric position", why, node=ml)
+        if not ok_back:
+            return
+        raise AnalysisError(f"{f.qual}: back-to-front insertion recognised; "
+                            "the remaining C20b clauses were written for "
+                            "the running-offset idiom and need re-reading")
     ctx.require(len(augs) == 1 and isinstance(augs[0].op, ast.Add),
                 f"{f.qual}: running offset update not found")
     off = ast.unparse(augs[0].target)
@@ -270,16 +369,27 @@ def _nesting(ctx):
               "the per-spectrum dictionary is a copy of the run's",
               "run_info is mutated in place", node=spec.node)
     # spectrum attributes
+    sT = Terms(DefUse(prog, spec), phi_vars=True)
     attrs = {}
-    for n in ast.walk(spec.node):
-        if isinstance(n, ast.Assign) and isinstance(
-                n.targets[0], ast.Subscript):
-            attrs[const_value(n.targets[0].slice)] = ast.unparse(n.value)
+    for e in container_events(spec.node, sT, CFG(spec.node)):
+        if e.kind == "store" and e.key[0] == "const":
+            attrs[e.key[1]] = e.value
+        elif e.kind == "update" and len(e.args) == 1 and \
+                e.args[0][0] == "dict":
+            for k, v in _dict_items(e.args[0]):
+                if k[0] == "const":
+                    attrs[k[1]] = v
+    SP = ("param", spec.params[0])
+
+    def attr_of(conv, name):
+        return ("call", "builtins." + conv,
+                (("mcall", SP, "get", (("const", name),), ()),), ())
+
     want_attrs = {
-        "scan": "int(spectrum.get('end_scan'))",
-        "charge": "int(spectrum.get('assumed_charge'))",
-        "ret_time": "float(spectrum.get('retention_time_sec'))",
-        "exp_mass": "float(spectrum.get('precursor_neutral_mass'))",
+        "scan": attr_of("int", "end_scan"),
+        "charge": attr_of("int", "assumed_charge"),
+        "ret_time": attr_of("float", "retention_time_sec"),
+        "exp_mass": attr_of("float", "precursor_neutral_mass"),
     }
     ctx.check(attrs == want_attrs, "C20c-spectrum-attributes", spec,
               "scan, charge, retention time and precursor mass come from "
@@ -348,3 +458,13 @@ def _read(ctx, f):
     ctx.check(ok_r, "C20c-percolator-output-rejected", f,
               "files that already carry Percolator results are rejected",
               "no raise on Percolator columns", node=f.node)
+
+
+def _dict_items(t):
+    """(key term, value term) pairs of a dict display term"""
+    if len(t) == 2 and isinstance(t[1], tuple):
+        return [tuple(kv) for kv in t[1] if isinstance(kv, tuple)
+                and len(kv) == 2]
+    if len(t) == 3:
+        return list(zip(t[1], t[2]))
+    return []
